@@ -16,14 +16,15 @@ Let t := concat cs.
 Hypothesis Hlen : (N.of_nat (length t) < usize_max)%N.
 Variable bs : N -> bool.
 Variable P : list insn.
+Variable MS : nat.
 Variable NC : nat.                  (* number of capture slots = 2 * number of groups *)
 Hypothesis HNC : 2 <= NC.           (* group 0 always exists *)
 Variable fuel : nat.
 Hypothesis Hfuel : length t < fuel.   (* the unbounded-repeat fuel never runs out *)
 
-Notation Gen := (Gen cx P).
-Notation steps := (steps cx P).
-Notation mstep := (mstep cx P).
+Notation Gen := (Gen cx P MS).
+Notation steps := (steps cx P MS).
+Notation mstep := (mstep cx P MS).
 Notation at_ := (at_ P).
 
 Definition At (pc : nat) (code : list insn) : Prop :=
@@ -220,7 +221,7 @@ Proof.
   unfold delegate1. destruct (is_literal e) eqn:El; intros Hn Ha Hix; [|cbn in Hn; discriminate].
   apply At_cons in Ha as [Ha _]. rewrite sem_is_literal by auto. unfold lit_res. cbn [fst snd sof length].
   replace (pc + 1) with (S pc) by lia.
-  pose proof (step_lit cx P pc (v_ix v) (v_sl v) (v_aux v) K _ Ha) as Hs. rewrite Htext in Hs. fold t in Hs.
+  pose proof (step_lit cx P MS pc (v_ix v) (v_sl v) (v_aux v) K _ Ha) as Hs. rewrite Htext in Hs. fold t in Hs.
   destruct (lit_at t (v_ix v) (push_literal e)); cbn [map].
   - eapply (Gen_one pc (S pc) K v {| v_ix := v_ix v + length (push_literal e); v_sl := v_sl v; v_aux := v_aux v |}).
     + apply steps_step. exact Hs.
@@ -265,7 +266,7 @@ Proof.
   start (Assertion a). inversion Hv; subst. split; [lia|]. intros v K Hsl Hok.
   apply At_cons in HAt as [Ha _]. destruct v as [ix sl aux]. cbn [sem sof v_ix v_sl length].
   replace (pc + 1) with (S pc) by lia.
-  pose proof (step_assert cx P pc ix sl aux K a Ha) as Hs.
+  pose proof (step_assert cx P MS pc ix sl aux K a Ha) as Hs.
   destruct (assert_holds cx a ix); cbn [map].
   - eapply Gen_one with (v' := {| v_ix := ix; v_sl := sl; v_aux := aux |}); [apply steps_step; exact Hs|].
     apply R_same. reflexivity.
@@ -279,7 +280,7 @@ Proof.
   - inversion Hv; subst. split; [lia|]. intros v K Hsl Hok.
     apply At_cons in HAt as [Ha _]. destruct v as [ix sl aux]. cbn [sem sof v_ix v_sl length].
     replace (pc + 1) with (S pc) by lia. rewrite Htext. fold t.
-    pose proof (step_lit cx P pc ix sl aux K val Ha) as Hs. rewrite Htext in Hs. fold t in Hs.
+    pose proof (step_lit cx P MS pc ix sl aux K val Ha) as Hs. rewrite Htext in Hs. fold t in Hs.
     destruct (lit_at t ix val); cbn [map].
     + eapply Gen_one with (v' := {| v_ix := ix + length val; v_sl := sl; v_aux := aux |}); [apply steps_step; exact Hs|].
       unfold R; cbn; repeat split; auto.
@@ -302,7 +303,7 @@ Proof.
   start ContinueFromPreviousMatchEnd. inversion Hv; subst. split; [lia|]. intros v K Hsl Hok.
   apply At_cons in HAt as [Ha _]. destruct v as [ix sl aux]. cbn [sem sof v_ix v_sl length].
   replace (pc + 1) with (S pc) by lia.
-  pose proof (step_contg cx P pc ix sl aux K Ha) as Hs.
+  pose proof (step_contg cx P MS pc ix sl aux K Ha) as Hs.
   destruct (ix =? c_pos cx); destruct (c_skipped cx); cbn [negb orb andb map] in *;
     try (apply Gen_none; apply steps_step; exact Hs).
   eapply Gen_one with (v' := {| v_ix := ix; v_sl := sl; v_aux := aux |}); [apply steps_step; exact Hs|].
@@ -341,7 +342,7 @@ Proof.
   destruct (Nat.leb_spec lo hi) as [Hle|Hgt]; cbn [andb].
   - assert (Blo : bnd cs lo) by (eapply (st_ok_caps {| v_ix := ix; v_sl := sl; v_aux := aux |}); [exact Hok| |exact E1]; lia).
     assert (Bhi : bnd cs hi) by (eapply (st_ok_caps {| v_ix := ix; v_sl := sl; v_aux := aux |}); [exact Hok| |exact E2]; lia).
-    pose proof (step_backref cx P pc ix sl aux K _ lo hi Ha E1 E2 Hle) as Hs. rewrite Htext in Hs. fold t in Hs.
+    pose proof (step_backref cx P MS pc ix sl aux K _ lo hi Ha E1 E2 Hle) as Hs. rewrite Htext in Hs. fold t in Hs.
     rewrite Htext. fold t.
     assert (Hb : (hi <=? length t) && is_boundary t lo && is_boundary t hi = true).
     { unfold t. rewrite !bnd_is_boundary by auto. apply bnd_le in Bhi. destruct (Nat.leb_spec hi (length (concat cs))); [reflexivity|lia]. }
@@ -360,7 +361,7 @@ Proof.
   destruct (getcap_caps (v_sl v) (2 * N.to_nat grp)) as (x1 & E1 & G1); [lia|lia|].
   destruct v as [ix sl aux]. cbn [sem sof v_ix v_sl length] in *. rewrite G1.
   replace (pc + 1) with (S pc) by lia.
-  pose proof (step_bec cx P pc ix sl aux K grp x1 Ha E1) as Hs.
+  pose proof (step_bec cx P MS pc ix sl aux K grp x1 Ha E1) as Hs.
   destruct x1; cbn [map].
   - eapply Gen_one with (v' := {| v_ix := ix; v_sl := sl; v_aux := aux |}); [apply steps_step; exact Hs|].
     apply R_same. reflexivity.
@@ -389,7 +390,7 @@ Proof.
   split; [exact Hmono|]. intros v K Hsl Hok.
   destruct v as [ix sl aux]. cbn [sem sof v_ix v_sl] in *.
   set (v1 := {| v_ix := ix; v_sl := upd sl (g * 2) (V ix); v_aux := aux |}).
-  apply Gen_step. unfold RunV at 1; cbn [v_ix v_sl v_aux]. rewrite (step_save cx P pc ix sl aux K _ Ha1) by lia.
+  apply Gen_step. unfold RunV at 1; cbn [v_ix v_sl v_aux]. rewrite (step_save cx P MS pc ix sl aux K _ Ha1) by lia.
   change (Run (S pc) ix (upd sl (g * 2) (V ix)) aux K) with (RunV (S pc) v1 K).
   apply Gen_weaken with (p := S pc); [lia|].
   assert (Hok1 : st_ok cs (sof v1)) by (apply st_ok_upd; auto; lia).
@@ -430,7 +431,7 @@ Proof.
   split; [exact Hmono|]. intros v K Hsl Hok.
   destruct v as [ix sl aux]. cbn [sem]. 
   set (v1 := {| v_ix := ix; v_sl := sl; v_aux := aux ++ [V (length K)] |}).
-  apply Gen_step. unfold RunV at 1; cbn [v_ix v_sl v_aux]. rewrite (step_begin cx P pc ix sl aux K Ha1).
+  apply Gen_step. unfold RunV at 1; cbn [v_ix v_sl v_aux]. rewrite (step_begin cx P MS pc ix sl aux K Ha1).
   change (Run (S pc) ix sl (aux ++ [V (length K)]) K) with (RunV (S pc) v1 K).
   specialize (IHc v1 K Hsl Hok). change (sof v1) with (sof {| v_ix := ix; v_sl := sl; v_aux := aux |}) in IHc.
   change (let '(ix0, caps0) := sof {| v_ix := ix; v_sl := sl; v_aux := aux |} in
@@ -442,7 +443,7 @@ Proof.
     destruct HQ as (Hi & Hcp & Hax & Hfr). destruct v' as [ix' sl' aux']. cbn [v_ix v_sl v_aux] in *. subst aux'.
     eapply Gen_cons with (F := []) (v := {| v_ix := ix'; v_sl := sl'; v_aux := aux |}).
     + eapply steps_trans; [exact Hs|]. apply steps_step. unfold RunV, v1; cbn [v_ix v_sl v_aux app].
-      rewrite (step_end cx P _ ix' sl' aux (F ++ K) (length K) Ha2) by (rewrite app_length; lia).
+      rewrite (step_end cx P MS _ ix' sl' aux (F ++ K) (length K) Ha2) by (rewrite app_length; lia).
       rewrite skipn_app_len. f_equal. cbn [length]. rewrite app_length. cbn [length]. lia.
     + constructor.
     + unfold R; cbn [v_ix v_sl v_aux]. auto.
@@ -557,7 +558,7 @@ Proof.
   apply At_cons in Ha as [Ha _]. split; auto. intros v K Hsl Hok.
   rewrite sem_cat_literals; [|exact El|exact (st_ok_ix v Hok)]. rewrite flat_map_push_literal in *.
   unfold lit_res. cbn [fst snd sof length]. replace (pc + 1) with (S pc) by lia.
-  pose proof (step_lit cx P pc (v_ix v) (v_sl v) (v_aux v) K _ Ha) as Hs. rewrite Htext in Hs. fold t in Hs.
+  pose proof (step_lit cx P MS pc (v_ix v) (v_sl v) (v_aux v) K _ Ha) as Hs. rewrite Htext in Hs. fold t in Hs.
   destruct (lit_at t (v_ix v) (push_literals (x :: r))); cbn [map].
   - eapply (Gen_one pc (S pc) K v {| v_ix := v_ix v + length (push_literals (x :: r)); v_sl := v_sl v; v_aux := v_aux v |}).
     + apply steps_step. exact Hs.
@@ -804,7 +805,7 @@ Proof.
     rewrite Eend in Hnr, HAr.
     destruct (IH y HFr _ _ _ _ _ Hr Hnr HAr Hor ltac:(lia) ltac:(lia)) as [M2 G2].
     split; [lia|]. intros v K Hsl Hokv. cbn [sem_alts]. rewrite map_app.
-    apply Gen_step. unfold RunV at 1. rewrite (step_split cx P pc _ _ _ K _ _ Ha1).
+    apply Gen_step. unfold RunV at 1. rewrite (step_split cx P MS pc _ _ _ K _ _ Ha1).
     fold (alt_of (pc + 1 + length c + 1) v).
     change (Run (pc + 1) (v_ix v) (v_sl v) (v_aux v) (alt_of (pc + 1 + length c + 1) v :: K))
       with (RunV (pc + 1) v ([alt_of (pc + 1 + length c + 1) v] ++ K)).
@@ -836,9 +837,9 @@ Qed.
 (* ---------- loops ---------- *)
 
 Lemma step_splitV pc v K x y : at_ pc (ISplit x y) -> mstep (RunV pc v K) = RunV x v (alt_of y v :: K).
-Proof. intros H. unfold RunV. now rewrite (step_split cx P pc _ _ _ K x y H). Qed.
+Proof. intros H. unfold RunV. now rewrite (step_split cx P MS pc _ _ _ K x y H). Qed.
 Lemma step_jmpV pc v K x : at_ pc (IJmp x) -> mstep (RunV pc v K) = RunV x v K.
-Proof. intros H. unfold RunV. now rewrite (step_jmp cx P pc _ _ _ K x H). Qed.
+Proof. intros H. unfold RunV. now rewrite (step_jmp cx P MS pc _ _ _ K x H). Qed.
 Lemma fail_alt y v K : mstep (Fail (alt_of y v :: K)) = RunV y v K.
 Proof. reflexivity. Qed.
 
@@ -895,7 +896,7 @@ Lemma choice_gen (gr : bool) c0 v0 v K (more : list sst) :
   Gen p q K c0 (map (R v0 k0 ns1) (if gr then more ++ [sof v] else sof v :: more)).
 Proof.
   intros HH He Hmore. eapply Gen_steps; [exact HH|]. destruct gr.
-  - rewrite map_app. apply (Gen_app cx P p q [alt_of q v]).
+  - rewrite map_app. apply (Gen_app cx P MS p q [alt_of q v]).
     + constructor; [|constructor]. cbn [alt_of a_pc]. lia.
     + apply Hmore.
     + apply Gen_step. cbn [app]. rewrite fail_alt. cbn [map]. eapply Gen_one'; [apply steps_refl|].
@@ -939,9 +940,9 @@ Lemma eps_head H (gr : bool) lo v K c ck :
   else RunV bst (setsl v (upd (v_sl v) k0 (V (c + 1)))) K.
 Proof.
   intros HH Hb E1 E2. unfold RunV. destruct gr.
-  - rewrite (step_repeat_eps_gr cx P H _ _ _ K lo q k0 (k0 + 1) c ck HH E1 E2).
+  - rewrite (step_repeat_eps_gr cx P MS H _ _ _ K lo q k0 (k0 + 1) c ck HH E1 E2).
     destruct (_ && _); [reflexivity|]. cbv zeta. destruct (N.leb lo (N.of_nat c)); rewrite Hb; reflexivity.
-  - rewrite (step_repeat_eps_ng cx P H _ _ _ K lo q k0 (k0 + 1) c ck HH E1 E2).
+  - rewrite (step_repeat_eps_ng cx P MS H _ _ _ K lo q k0 (k0 + 1) c ck HH E1 E2).
     destruct (_ && _); [reflexivity|]. cbv zeta. destruct (N.leb lo (N.of_nat c)); rewrite ?Hb; reflexivity.
 Qed.
 
@@ -1044,9 +1045,9 @@ Lemma cnt_head H (gr : bool) lo hi v K c :
   else RunV bst v1 K.
 Proof.
   intros HH Hb E1. unfold RunV. destruct gr.
-  - rewrite (step_repeat_gr cx P H _ _ _ K lo hi q k0 c HH E1).
+  - rewrite (step_repeat_gr cx P MS H _ _ _ K lo hi q k0 c HH E1).
     destruct (N.eqb _ _); [reflexivity|]. cbv zeta. destruct (N.leb lo (N.of_nat c)); rewrite Hb; reflexivity.
-  - rewrite (step_repeat_ng cx P H _ _ _ K lo hi q k0 c HH E1).
+  - rewrite (step_repeat_ng cx P MS H _ _ _ K lo hi q k0 c HH E1).
     destruct (N.eqb _ _); [reflexivity|]. cbv zeta. destruct (N.leb lo (N.of_nat c)); rewrite ?Hb; reflexivity.
 Qed.
 
@@ -1218,7 +1219,7 @@ Proof.
     assert (Hbody : forall v K, ns1 <= length (v_sl v) -> st_ok cs (sof v) ->
               Gen pc (S (S pc) + length cc) K (RunV (S (S pc)) v K) (map (R v (ns + 2) ns1) (sem cx c fuel g (sof v)))).
     { intros v' K' H1 H2. apply Gen_weaken with (p := S (S pc)); [lia|]. now apply IHc. }
-    apply Gen_step. unfold RunV at 1. rewrite (step_save0 cx P pc _ _ _ K ns Ha1) by lia.
+    apply Gen_step. unfold RunV at 1. rewrite (step_save0 cx P MS pc _ _ _ K ns Ha1) by lia.
     set (v1 := setsl v (upd (v_sl v) ns (V 0))).
     change (Run (S pc) (v_ix v) (upd (v_sl v) ns (V 0)) (v_aux v) K) with (RunV (S pc) v1 K).
     assert (Hs1 : sof v1 = sof v) by (apply sof_upd; lia).
@@ -1292,7 +1293,7 @@ Proof.
   assert (Hbody : forall v K, ns1 <= length (v_sl v) -> st_ok cs (sof v) ->
             Gen pc (S (S pc) + length cc) K (RunV (S (S pc)) v K) (map (R v (ns + 1) ns1) (sem cx c fuel g (sof v)))).
   { intros v' K' H1 H2. apply Gen_weaken with (p := S (S pc)); [lia|]. now apply IHc. }
-  apply Gen_step. unfold RunV at 1. rewrite (step_save0 cx P pc _ _ _ K ns Ha1) by lia.
+  apply Gen_step. unfold RunV at 1. rewrite (step_save0 cx P MS pc _ _ _ K ns Ha1) by lia.
   set (v1 := setsl v (upd (v_sl v) ns (V 0))).
   change (Run (S pc) (v_ix v) (upd (v_sl v) ns (V 0)) (v_aux v) K) with (RunV (S pc) v1 K).
   assert (Hs1 : sof v1 = sof v) by (apply sof_upd; lia).
@@ -1530,7 +1531,7 @@ Proof.
     replace (pc + 1) with (S pc) in Hc by lia.
     destruct (IH gx false (S pc) ns cc n1 Hc Hndc HAc Hok Hns Hng) as [M G]. split; auto.
     intros v K Hsl Hokv. cbn [sof fst snd]. apply Gen_step. unfold RunV at 1.
-    rewrite (step_goback cx P pc _ _ _ K _ Ha).
+    rewrite (step_goback cx P MS pc _ _ _ K _ Ha).
     destruct Hokv as [Bix Hcaps]. cbn [sof fst snd] in Bix, Hcaps.
     pose proof (goback_sound cs W cx Htext (v_ix v) (min_size x) (v_ix v) Bix (le_n _)) as Gs.
     destruct (goback cx (v_ix v) (min_size x) (v_ix v)) as [j| |].
@@ -1591,12 +1592,12 @@ Proof.
     unfold R; cbn [v_ix v_sl v_aux fst snd sof].
     split; [auto|]. split; [auto|]. split; [auto|]. split; [congruence|].
     intros j Hj Ho. rewrite F by lia. unfold v1; cbn [setsl v_sl]. apply nth_upd_other. lia. }
-  apply Gen_step. unfold RunV at 1. rewrite (step_save cx P pc _ _ _ K ns Ha1) by lia.
+  apply Gen_step. unfold RunV at 1. rewrite (step_save cx P MS pc _ _ _ K ns Ha1) by lia.
   change (Run (S pc) (v_ix v) (upd (v_sl v) ns (V (v_ix v))) (v_aux v) K) with (RunV (S pc) v1 K).
   destruct h.
   - cbn [app] in HAt. apply At_cons in HAt as [Ha2 HAt]. apply At_app in HAt as [_ HAt].
     apply At_cons in HAt as [Ha3 HAt]. apply At_cons in HAt as [Ha4 _].
-    apply Gen_step. unfold RunV at 1. rewrite (step_begin cx P (S pc) _ _ _ K Ha2).
+    apply Gen_step. unfold RunV at 1. rewrite (step_begin cx P MS (S pc) _ _ _ K Ha2).
     set (v2 := {| v_ix := v_ix v1; v_sl := v_sl v1; v_aux := v_aux v1 ++ [V (length K)] |}).
     change (Run (S (S pc)) (v_ix v1) (v_sl v1) (v_aux v1 ++ [V (length K)]) K) with (RunV (S (S pc)) v2 K).
     specialize (Hin v2 K ltac:(unfold v2; cbn [v_sl]; lia) ltac:(change (sof v2) with (sof v1); now rewrite Hs1)).
@@ -1609,9 +1610,9 @@ Proof.
       destruct v' as [ix' sl' aux']. cbn [v_ix v_sl v_aux] in *. subst aux'.
       eapply Gen_one' with (v' := {| v_ix := v_ix v; v_sl := sl'; v_aux := v_aux v |}).
       * eapply steps_trans; [exact Hs|]. unfold RunV; cbn [v_ix v_sl v_aux v2 v1 setsl].
-        apply steps_cons. rewrite (step_end cx P _ ix' sl' (v_aux v) (F ++ K) (length K) Ha3) by (rewrite app_length; lia).
+        apply steps_cons. rewrite (step_end cx P MS _ ix' sl' (v_aux v) (F ++ K) (length K) Ha3) by (rewrite app_length; lia).
         rewrite skipn_app_len. apply steps_step.
-        rewrite (step_restore cx P _ ix' sl' (v_aux v) K ns (v_ix v) Ha4 Hsl'). f_equal.
+        rewrite (step_restore cx P MS _ ix' sl' (v_aux v) K ns (v_ix v) Ha4 Hsl'). f_equal.
         cbn [length]. rewrite !app_length. cbn [length]. lia.
       * exact HRx.
   - cbn [app] in HAt. apply At_app in HAt as [_ HAt]. apply At_cons in HAt as [Ha4 _].
@@ -1625,7 +1626,7 @@ Proof.
       change (v_aux v1) with (v_aux v) in Hax.
       eapply Gen_cons with (F := F) (v := {| v_ix := v_ix v; v_sl := v_sl v'; v_aux := v_aux v |}).
       * eapply steps_trans; [exact Hs|]. apply steps_step. unfold RunV; cbn [v_ix v_sl v_aux].
-        rewrite (step_restore cx P _ _ _ _ (F ++ K) ns (v_ix v) Ha4 Hsl'). rewrite Hax. f_equal.
+        rewrite (step_restore cx P MS _ _ _ _ (F ++ K) ns (v_ix v) Ha4 Hsl'). rewrite Hax. f_equal.
         cbn [length]. rewrite !app_length. cbn [length]. lia.
       * eapply inblk_weaken; [| |exact HF]; [lia|]. cbn [length]. rewrite !app_length. cbn [length]. lia.
       * exact HRx.
@@ -1654,7 +1655,7 @@ Proof.
   - inversion Hin as [|c0 v' F Q Ps Hs HF HQ Hrest]; subst. apply Gen_nil.
     eapply steps_trans; [exact Hs|]. apply steps_step. unfold RunV.
     replace (S pc + length codeI) with (pc + 1 + length codeI) in Ha2 by lia.
-    apply (step_fnla cx P (pc + 1 + length codeI) _ _ _ F (alt_of (pc + 1 + length codeI + 1) v) K Ha2).
+    apply (step_fnla cx P MS (pc + 1 + length codeI) _ _ _ F (alt_of (pc + 1 + length codeI + 1) v) K Ha2).
     + eapply Forall_impl; [|exact HF]. intros a Ha. cbn beta in Ha. lia.
     + cbn [alt_of a_pc]. lia.
 Qed.
